@@ -5,6 +5,11 @@ import json, subprocess
 HOOK_COMMITS = ["e830588", "a6f2056", "d667224"]
 
 CHECKS = {
+ "C13": dict(
+  technique="runtime oracle: synthesis of conforming traffic per bundled signature, packet-level analysis, and a p0f-level conformance predicate for earlier entries; dead signatures of the unchanged tree listed item by item as a known finding",
+  text="Exploration: each of the 199 TCP and 99 HTTP bundled signatures is instantiated as packets/messages (TCP: IPv4/IPv6, hop counts 0..30, admissible MSS/scale values, windows realising the window form, option bytes realising the layout, header bits realising exactly the quirks; 300 variants per signature quick / 6000 thorough; HTTP: 16 variants over HTTP version, optional headers in/out, exact vs substring values, exact vs embedded software token) and analysed at packet level; the best match must be the signature's own label or the label of an earlier entry the traffic conforms to. Held = every (signature, variant class) either reaches its label or is one of the 299 listed dead items.",
+  note="Conformance predicate and synthesis are the harness' own (c13.rs); a listed item that becomes reachable is noted, not reported.",
+  design="6 C13"),
  "C04": dict(
   technique="runtime oracle: reference JA4 computed from the generating ClientHello model (independent SHA-256) + metamorphic permutation/GREASE checks, through four entry points; deviation models for two known findings",
   text="Exploration: ~1.4e6 (quick) / ~1e8 (thorough) judged hellos: exhaustive grids (legacy versions x ordered supported_versions lists, cipher/extension counts around 99, all two-byte alphanumeric ALPN names, session-id/compression/record-version grid), all n! orders of ciphers and extensions for n<=5/6 plus random orders for long lists, every subset of a GREASE sample at every position of every list; JA4, JA4_r, JA4_o, JA4_ro, a/b/c parts and the separately reported fields are compared with the reference and across parse function, reader, packet analyzer and unified analyzer. Held = only the two listed known-finding deviations observed.",
